@@ -17,7 +17,7 @@ CONSTANTS Kinds,        \* action kinds explored: subset of AllKinds
           MaxDepth,     \* bound on behaviour length (0 = unbounded; exhaustive mode is bounded by MaxSeq)
           InitAtt, InitAttG, InitOnMe,   \* attachments after the fixed prelude of every behaviour
           MeSessions,   \* sessions that may attach to / leave "me"
-          LeaveSessions, DiscSessions, PubSessions,   \* sessions that leave p12 / disconnect / publish ordinary messages
+          SubSessions, LeaveSessions, DiscSessions, PubSessions,   \* sessions that attach to p12 / leave it / disconnect / publish ordinary messages
           DumpPrefix,   \* "" = do not write behaviours
           RandomWalk    \* TRUE (simulation): draw ONE request per step
 
@@ -39,7 +39,7 @@ SeqChoices(S) == {0, LastId(S) + 1, LastId(S), S.call.seq} \cup Invitations(S.ms
 
 Acts(S) ==
   LET liveM == MemberSess \cap S.live
-      sub == {[a |-> "Sub", s |-> s, t |-> "p12"] : s \in liveM}
+      sub == {[a |-> "Sub", s |-> s, t |-> "p12"] : s \in SubSessions \cap liveM}
              \cup {[a |-> "Sub", s |-> s, t |-> "me"] : s \in MeSessions \cap S.live}
              \cup {[a |-> "Sub", s |-> s, t |-> "g1"] : s \in GrpSessions \cap S.live}
       leave == {[a |-> "Leave", s |-> s, t |-> "p12", unsub |-> FALSE] : s \in LeaveSessions \cap S.live}
